@@ -162,7 +162,7 @@ def check(col, prog, tier, profile, fixture=None):
                 v = e.extra["argvals"][0]
                 if v in (pa, pb):
                     absd[v] = True
-            if e.kind == "call" and seen_loop and e.extra.get("name") not in ("ne", "eq", "rem_assign", "swap", "rem", "clone"):
+            if e.kind == "call" and seen_loop and e.extra.get("name") not in ("ne", "eq", "rem_assign", "swap", "rem", "clone", "replace", "take"):
                 loop_ok = False
     ret_ok = all(util.ret_term(st)[0] == "phi" for st in I.final_states)
     key = "%s|abs-both" % fk(gcd)
